@@ -58,7 +58,9 @@ def st_value(key, depth, z0):
         # the lower bound as a don't-care, the upper one not)
         pairs = st.tuples(st.sampled_from([-0.8 * depth, -0.5 * depth]), st.sampled_from([0.5 * z0, 0.8 * z0, "inf"]))
         return st.one_of(pairs.map(list), pairs.map(list), pairs.map(list), pairs.map(lambda t: [t[1], t[0]]),
-                         pairs.map(list), pairs.map(list), st.sampled_from([[0, 0], [0, 0], ["nan", 0.5 * z0]]))
+                         pairs.map(list), pairs.map(list), st.sampled_from([[0, 0], [0, 0], ["nan", 0.5 * z0]]),
+                         # an interval outside the data: too few points, the fit ends unsuccessful without raising
+                         st.just([10 * z0, 11 * z0]))
     if key == "segment":
         return st.sampled_from([0, 0, 0, 1, 1, "approach", "retract", 0, 1, 0.5])
     if key == "weight_cp":
@@ -72,7 +74,9 @@ def st_value(key, depth, z0):
     if key == "method":
         return st.sampled_from(["leastsq"] * 6 + ["nelder"] * 3 + ["no_such_method"])
     if key == "method_kws":
-        return st.sampled_from([{}, {}, {"ftol": 1e-10}, {"xtol": 1e-10, "ftol": 1e-10}])
+        # (also the same keyword dictionary with its keys in the other order: an equal value)
+        return st.sampled_from([{}, {}, {"ftol": 1e-10}, {"xtol": 1e-10, "ftol": 1e-10}, {"ftol": 1e-10, "xtol": 1e-10},
+                                {"xtol": 1e-10, "ftol": 1e-10}, {"ftol": 1e-10, "xtol": 1e-10}])
     if key == "params_initial":
         return st.fixed_dictionaries({"E": st.floats(2.5, 4.5).map(lambda e: 10 ** e),
                                       "cp_frac": st.floats(-0.05, 0.05),
@@ -92,11 +96,14 @@ def st_case(draw, max_ops=14):
     for _ in range(draw(st.integers(3, max_ops))):
         t = draw(st.sampled_from(["fit", "fit", "fit", "fit", "edit", "edit", "edit", "pre", "pre_bad", "refit",
                                   "refit", "rate", "emod", "getparams_edit", "repeat", "fitpre", "params_attr",
-                                  "plateau_range", "plateau_range", "range_nudge", "pre_details"]))
+                                  "plateau_range", "plateau_range", "range_nudge", "pre_details", "dict_reorder"]))
         if t == "params_attr":
             ops.append({"op": "params_attr", "attr": draw(st.sampled_from(["vary", "min", "max", "value", "expr", "fix_then_expr"])),
                         "name": draw(st.sampled_from(["E", "contact_point", "baseline"])),
                         "via": draw(st.sampled_from(["fit", "edit"]))})
+            continue
+        if t == "dict_reorder":
+            ops.append({"op": "dict_reorder", "which": draw(st.sampled_from(["method_kws", "pre_options"]))})
             continue
         if t == "pre_details":
             ops.append({"op": "pre_details"})
@@ -130,8 +137,13 @@ def st_case(draw, max_ops=14):
             k = draw(st.sampled_from(EDIT_KEYS))
             ops.append({"op": "edit", "key": k, "value": draw(st_value(k, depth, z0))})
         elif t == "pre":
+            two = {"correct_tip_offset": {"method": "frechet_direct_path"},
+                   "correct_force_slope": {"region": "baseline", "strategy": "shift"}}
             ops.append({"op": "pre", "steps": draw(st.sampled_from(PIPES)),
-                        "opts": draw(st.sampled_from([{}, {}, {"correct_tip_offset": {"method": "frechet_direct_path"}}]))})
+                        "opts": draw(st.sampled_from([{}, {}, {"correct_tip_offset": {"method": "frechet_direct_path"}},
+                                                      two, dict(reversed(list(two.items()))),
+                                                      {"correct_force_slope": {"strategy": "shift", "region": "baseline"},
+                                                       "correct_tip_offset": {"method": "frechet_direct_path"}}]))})
         elif t == "pre_bad":
             ops.append({"op": "pre", "steps": draw(st.sampled_from(BAD_PIPES + PIPES[1:3])),
                         "opts": draw(st.sampled_from([{}, {"correct_tip_offset": {"method": "nope"}}]))})
@@ -225,6 +237,19 @@ def do_op(idnt, op, curve):
                 idnt.fit_model(params_initial=p)
             else:
                 idnt.fit_properties["params_initial"] = p
+        elif kind == "dict_reorder":
+            # an equal dictionary whose keys come in another order is the same setting
+            if op["which"] == "method_kws":
+                idnt.fit_model(method="leastsq", method_kws={"ftol": 1e-10, "xtol": 1e-10})
+                idnt.fit_model(method_kws={"xtol": 1e-10, "ftol": 1e-10})
+            else:
+                steps = ["compute_tip_position", "correct_tip_offset", "correct_force_slope"]
+                o1 = {"correct_tip_offset": {"method": "deviation_from_baseline"},
+                      "correct_force_slope": {"region": "baseline", "strategy": "shift"}}
+                o2 = {"correct_force_slope": {"strategy": "shift", "region": "baseline"},
+                      "correct_tip_offset": {"method": "deviation_from_baseline"}}
+                idnt.fit_model(preprocessing=steps, preprocessing_options=o1)
+                idnt.fit_model(preprocessing=list(steps), preprocessing_options=o2)
         elif kind == "pre_details":
             # the same pipeline again, this time asking for the details of the steps
             idnt.apply_preprocessing(copy.deepcopy(idnt.preprocessing), copy.deepcopy(idnt.preprocessing_options),
@@ -341,7 +366,7 @@ def check_case(case, ctx, ):
             before_calls = len(rec.calls)
             exc = do_op(idnt, op, curve)
             last = op
-            if exc is not None or op["op"] in ("edit", "getparams_edit", "params_attr", "range_nudge"):
+            if exc is not None or op["op"] in ("edit", "getparams_edit", "params_attr", "range_nudge", "dict_reorder"):
                 special = True
             # class histogram of the orders the property names
             fpn = idnt.fit_properties
